@@ -10,7 +10,7 @@ import math
 from base import *  # noqa
 import geodepy.constants as K
 import geodepy.convert as C
-from tm_oracle import (central_meridian, prj_kind, enc_ell, enc_prj, dec_ell, dec_prj, src_ell, src_prj,
+from tm_oracle import (in_own_zone, central_meridian, prj_kind, enc_ell, enc_prj, dec_ell, dec_prj, src_ell, src_prj,
                        any_ellipsoid, any_projection, ISG_ZONES, run_chunks, attach_measured, Sub,
                        rerun_replay, show_replay)
 
@@ -204,7 +204,7 @@ def chunk_geo(p, n):
         lat = pick_lat(rng)
         if prj is K.isg and rng.random() < 0.8:
             lat = rng.uniform(-38, -28)
-        auto = abs(lon - cm) <= zw / 2 and rng.random() < 0.4
+        auto = in_own_zone(prj, zone, lon) and rng.random() < 0.4
         check_geo(p, lat, lon, 0 if auto else zone, ell, prj)
 
 
@@ -278,9 +278,9 @@ def run(p):
     attach_measured(p)
     t = p.tier == 'thorough'
     run_chunks(p, [
-        (chunk_geo, 'geo', 16 if t else 1, p.n(1200, 25000)),
-        (chunk_lattice, 'lattice', 16 if t else 1, p.n(1500, 30000)),
-        (chunk_standalone, 'standalone', 16 if t else 1, p.n(700, 12000)),
+        (chunk_geo, 'geo', 16 if t else 1, p.n(2500, 25000)),
+        (chunk_lattice, 'lattice', 16 if t else 1, p.n(3000, 30000)),
+        (chunk_standalone, 'standalone', 16 if t else 1, p.n(1500, 12000)),
     ])
 
 
